@@ -1878,4 +1878,255 @@ theorem foldLicense_V (src : List Str) (ps ps' : List Para) (hd : DocV src ps) (
             rw [this] at h2
             rw [h2]; exact hd.ord
 
+/-! ### F. the property -/
+
+open Props.C07 in
+/-- **every copyright object built from a text** satisfies the range invariant -/
+theorem fromText_V (t : Str) (ps : List Para) (h : fromText t = .ok ps) : DocV (srcLines t) ps := by
+  have hinc := Props.C05.numbers_increasing t
+  rw [Props.C05.allNums_model] at hinc
+  have hnums : (parse t).flatMap gnums = Proofs.Deb822.nums (parse t) := rfl
+  obtain ⟨ps0, hps0, hd0, hc0, _⟩ := groups_V (srcLines t) (parse t) 1 (parse_fldR t)
+    (by rw [hnums]; exact hinc.1)
+    (by
+      intro n hn
+      rw [hnums] at hn
+      exact (hinc.2 n hn).1)
+  unfold fromText fromFieldsGroups at h
+  rw [hps0] at h
+  simp only at h
+  cases hm : mergeUnknown ps0 with
+  | error e => rw [hm] at h; simp at h
+  | ok ps1 =>
+    rw [hm] at h
+    simp only at h
+    exact foldLicense_V _ ps1 ps (mergeUnknown_V _ ps0 ps1 hd0 hc0 hm) h
+
+def Apart (a b : Nat × Nat) : Prop := a.2 < b.1 ∨ b.2 < a.1
+
+theorem insertRange_perm (r : Nat × Nat) (l : List (Nat × Nat)) : (insertRange r l).Perm (r :: l) := by
+  induction l with
+  | nil => exact List.Perm.refl _
+  | cons x xs ih =>
+    unfold insertRange
+    by_cases h : r.1 < x.1
+    · simp only [h, if_true]; exact List.Perm.refl _
+    · simp only [h, if_false]
+      exact (List.Perm.cons x ih).trans (List.Perm.swap r x xs)
+
+theorem sortRanges_perm (l : List (Nat × Nat)) : (sortRanges l).Perm l := by
+  unfold sortRanges
+  have : ∀ (acc : List (Nat × Nat)), (l.foldl (fun acc r => insertRange r acc) acc).Perm (l ++ acc) := by
+    induction l with
+    | nil => intro acc; exact List.Perm.refl _
+    | cons x xs ih =>
+      intro acc
+      simp only [List.foldl_cons]
+      refine (ih (insertRange x acc)).trans ?_
+      refine (List.Perm.append_left xs (insertRange_perm x acc)).trans ?_
+      simp only [List.cons_append]
+      exact List.perm_middle
+  simpa using this []
+
+theorem insertRange_sorted (r : Nat × Nat) (l : List (Nat × Nat)) (h : l.Pairwise fun a b => a.1 ≤ b.1) :
+    (insertRange r l).Pairwise fun a b => a.1 ≤ b.1 := by
+  induction l with
+  | nil => simp [insertRange]
+  | cons x xs ih =>
+    rw [List.pairwise_cons] at h
+    unfold insertRange
+    by_cases hr : r.1 < x.1
+    · simp only [hr, if_true]
+      rw [List.pairwise_cons]
+      refine ⟨?_, List.pairwise_cons.mpr h⟩
+      intro y hy
+      rcases List.mem_cons.mp hy with rfl | hy
+      · omega
+      · have := h.1 y hy; omega
+    · simp only [hr, if_false]
+      rw [List.pairwise_cons]
+      refine ⟨?_, ih h.2⟩
+      intro y hy
+      have := (insertRange_perm r xs).mem_iff.mp hy
+      rcases List.mem_cons.mp this with rfl | hy'
+      · omega
+      · exact h.1 y hy'
+
+theorem sortRanges_sorted (l : List (Nat × Nat)) : (sortRanges l).Pairwise fun a b => a.1 ≤ b.1 := by
+  unfold sortRanges
+  have : ∀ (acc : List (Nat × Nat)), acc.Pairwise (fun a b => a.1 ≤ b.1) →
+      (l.foldl (fun acc r => insertRange r acc) acc).Pairwise fun a b => a.1 ≤ b.1 := by
+    induction l with
+    | nil => intro acc h; exact h
+    | cons x xs ih => intro acc h; exact ih _ (insertRange_sorted x acc h)
+  exact this [] List.Pairwise.nil
+
+theorem disjointIncreasing_of_pairwise (l : List (Nat × Nat)) (h : l.Pairwise fun a b => a.2 < b.1) :
+    disjointIncreasing l = true := by
+  induction l with
+  | nil => rfl
+  | cons a as ih =>
+    rw [List.pairwise_cons] at h
+    cases as with
+    | nil => rfl
+    | cons b bs =>
+      simp only [disjointIncreasing, Bool.and_eq_true, decide_eq_true_eq]
+      exact ⟨h.1 b (by simp), ih h.2⟩
+
+/-- two entries of `lines` under different keys have ranges that lie apart -/
+theorem lines_apart (L : List (Str × (Nat × Nat))) (ho : (L.map (·.2)).Pairwise fun r r' => r.2 < r'.1)
+    (x y : Str × (Nat × Nat)) (hx : x ∈ L) (hy : y ∈ L) (hne : x.1 ≠ y.1) : Apart x.2 y.2 := by
+  induction L with
+  | nil => cases hx
+  | cons a as ih =>
+    rw [List.map_cons, List.pairwise_cons] at ho
+    rcases List.mem_cons.mp hx with rfl | hx' <;> rcases List.mem_cons.mp hy with rfl | hy'
+    · exact absurd rfl hne
+    · exact Or.inl (ho.1 y.2 (List.mem_map.mpr ⟨y, hy', rfl⟩))
+    · exact Or.inr (ho.1 x.2 (List.mem_map.mpr ⟨x, hx', rfl⟩))
+    · exact ih ho.2 hx' hy'
+
+/-- the ranges of the fields with a value, sorted: inside the paragraph's list of ranges, one after the other -/
+theorem valued_sorted (src : List Str) (p : Para) (hv : ParaV src p)
+    (ho : (p.lines.map (·.2)).Pairwise fun r r' => r.2 < r'.1) :
+    (sortRanges (valuedRanges (Props.CopyrightObs.ofPara p))).Pairwise (fun a b => a.2 < b.1) ∧
+    ∀ r ∈ sortRanges (valuedRanges (Props.CopyrightObs.ofPara p)), r ∈ p.lines.map (·.2) := by
+  -- the valued ranges: members of `lines`, pairwise apart
+  have hmem : ∀ r ∈ valuedRanges (Props.CopyrightObs.ofPara p), ∃ k, (k, r) ∈ p.lines ∧ r.1 ≤ r.2 := by
+    intro r hr
+    unfold valuedRanges at hr
+    obtain ⟨kv, hkv, hf⟩ := List.mem_filterMap.mp hr
+    obtain ⟨k, dv⟩ := kv
+    cases dv with
+    | emptyList => simp at hf
+    | s v =>
+      simp only [Props.CopyrightObs.ofPara] at hf
+      by_cases hve : v.isEmpty = true
+      · simp [hve] at hf
+      · simp only [hve, Bool.false_eq_true, if_false] at hf
+        have hm := lookup_mem _ _ _ hf
+        obtain ⟨v', hv'⟩ := hv.lval (k, r) hm
+        exact ⟨k, hm, hv'.le⟩
+  have hap : (valuedRanges (Props.CopyrightObs.ofPara p)).Pairwise Apart := by
+    unfold valuedRanges
+    rw [List.pairwise_filterMap]
+    have hd := hv.dnd
+    simp only [Props.CopyrightObs.ofPara]
+    -- distinct keys of the dictionary form
+    have : (toDict p).Pairwise fun a b => a.1 ≠ b.1 := by
+      have := hd
+      unfold List.Nodup at this
+      rw [List.pairwise_map] at this
+      exact this
+    refine this.imp ?_
+    intro a b hab r hr r' hr'
+    obtain ⟨ka, da⟩ := a
+    obtain ⟨kb, db⟩ := b
+    cases da with
+    | emptyList => simp at hr
+    | s va =>
+      cases db with
+      | emptyList => simp at hr'
+      | s vb =>
+        by_cases h1 : va.isEmpty = true
+        · simp [h1] at hr
+        · by_cases h2 : vb.isEmpty = true
+          · simp [h2] at hr'
+          · simp only [h1, h2, Bool.false_eq_true, if_false] at hr hr'
+            exact lines_apart p.lines ho (ka, r) (kb, r') (lookup_mem _ _ _ hr) (lookup_mem _ _ _ hr') hab
+  have hperm := sortRanges_perm (valuedRanges (Props.CopyrightObs.ofPara p))
+  have hsorted := sortRanges_sorted (valuedRanges (Props.CopyrightObs.ofPara p))
+  have hap' : (sortRanges (valuedRanges (Props.CopyrightObs.ofPara p))).Pairwise Apart :=
+    (hperm.pairwise_iff (fun {a b} h => by rcases h with h | h; exact Or.inr h; exact Or.inl h)).mpr hap
+  refine ⟨?_, ?_⟩
+  · have hboth := hsorted.and hap'
+    refine hboth.imp_of_mem ?_
+    intro a b ha hb hab
+    obtain ⟨h1, h2⟩ := hab
+    obtain ⟨_, _, hale⟩ := hmem a (hperm.mem_iff.mp ha)
+    obtain ⟨_, _, hble⟩ := hmem b (hperm.mem_iff.mp hb)
+    rcases h2 with h | h
+    · exact h
+    · omega
+  · intro r hr
+    obtain ⟨k, hk, _⟩ := hmem r (hperm.mem_iff.mp hr)
+    exact List.mem_map.mpr ⟨(k, r), hk, rfl⟩
+
+theorem all_valued_pairwise (src : List Str) (ps : List Para) (hv : ∀ p ∈ ps, ParaV src p) (ho : Ordered (ranges ps)) :
+    ((ps.map Props.CopyrightObs.ofPara).flatMap fun p => sortRanges (valuedRanges p)).Pairwise (fun a b => a.2 < b.1) ∧
+    ∀ r ∈ (ps.map Props.CopyrightObs.ofPara).flatMap (fun p => sortRanges (valuedRanges p)), r ∈ ranges ps := by
+  induction ps with
+  | nil => exact ⟨by simp, by simp⟩
+  | cons p rest ih =>
+    have ho' := ho
+    unfold Ordered at ho'
+    simp only [ranges, List.flatMap_cons] at ho'
+    rw [List.pairwise_append] at ho'
+    obtain ⟨h1, h2⟩ := ih (fun q hq => hv q (by simp [hq])) ho'.2.1
+    obtain ⟨hs1, hs2⟩ := valued_sorted src p (hv p (by simp)) ho'.1
+    refine ⟨?_, ?_⟩
+    · simp only [List.map_cons, List.flatMap_cons]
+      rw [List.pairwise_append]
+      refine ⟨hs1, h1, ?_⟩
+      intro a ha b hb
+      exact ho'.2.2 a (hs2 a ha) b (h2 b hb)
+    · intro r hr
+      simp only [List.map_cons, List.flatMap_cons, List.mem_append] at hr
+      simp only [ranges, List.flatMap_cons, List.mem_append]
+      rcases hr with hr | hr
+      · exact Or.inl (hs2 r hr)
+      · exact Or.inr (h2 r hr)
+
+theorem paraOk_of_V (src : List Str) (p : Para) (hv : ParaV src p) : paraOk src (Props.CopyrightObs.ofPara p) = true := by
+  unfold paraOk
+  rw [List.all_eq_true]
+  intro kv hkv
+  obtain ⟨k, dv⟩ := kv
+  cases dv with
+  | emptyList => rfl
+  | s v =>
+    simp only [Bool.or_eq_true]
+    by_cases hve : v.isEmpty = true
+    · exact Or.inl hve
+    · right
+      have hne : v ≠ [] := by intro e; rw [e] at hve; simp at hve
+      obtain ⟨r, hr, hrr⟩ := hv.val k v hkv hne
+      have hlk : p.lines.lookup k = some r := Props.C09G.lookup_mem_nodup p.lines hv.lnd (k, r) hr
+      unfold fieldOk
+      simp only [Props.CopyrightObs.ofPara, hlk, Bool.and_eq_true, decide_eq_true_eq, Bool.not_eq_true']
+      exact ⟨⟨⟨⟨⟨hrr.lo, hrr.le⟩, hrr.hi⟩, hrr.first⟩, hrr.last⟩, hrr.wds⟩
+
+/-- **C10 for every text**: every field with a value of every paragraph of the copyright object carries a range inside
+the file whose first and last lines hold content and whose lines contain every word of the value; the ranges are
+disjoint and increasing in source order, within and across paragraphs — through the merge of free-text paragraphs and
+the fold into an empty license; and blank lines on top shift every range by their number and change nothing else -/
+theorem sound (i : Input) : holdsOn i (model i) = true := by
+  unfold holdsOn model
+  simp only
+  rw [Props.C10S.shift_sound]
+  unfold parasOf
+  cases hft : fromText i.text with
+  | error e => rfl
+  | ok ps =>
+    simp only [Except.map]
+    have hd := fromText_V i.text ps hft
+    simp only [Bool.and_eq_true, decide_eq_true_eq, List.all_eq_true]
+    refine ⟨⟨?_, ?_⟩, trivial⟩
+    · intro po hpo
+      obtain ⟨p, hp, rfl⟩ := List.mem_map.mp hpo
+      exact paraOk_of_V _ p (hd.paras p hp)
+    · unfold rangesOk
+      exact disjointIncreasing_of_pairwise _ (all_valued_pairwise _ ps hd.paras hd.ord).1
+
+end Props.C10R
+
+namespace Props.C10R
+open Props.C10
+
+/-- non-vacuity: an absorbed blank line after a value-less declaration, a merged run of free text with a declaration
+line inside, a fold into an empty license, renamed duplicates: the object has paragraphs with ranges -/
+example : (match parasOf "License: a\nLicense: b\n\njunk x\n\nUnknown-a:y\n\nLicense:\n\nfree text\nmore\n\nFiles: *\nCopyright: 2001 X\n  2002 Y\nLicense: MIT\n".toList with
+    | .ok ps => ps.map (fun p => p.lines.map (·.2))
+    | .error _ => []) = [[(1, 1), (2, 2)], [(4, 6)], [(10, 11)], [(13, 13), (14, 15), (16, 16)]] := by decide +kernel
+
 end Props.C10R
